@@ -31,6 +31,11 @@ class Obligation:
         return d
 
 
+class _Counters(dict):
+    def __missing__(self, k):
+        return 0
+
+
 class Ctx:
     """What a rule sees: the index, the tier, and helpers to emit obligations."""
 
@@ -39,8 +44,8 @@ class Ctx:
         self.prop = prop
         self.tier = tier
         self.obligations = []
-        self.counters = {'functions_analysed': set(), 'paths_enumerated': 0, 'abstract_cases': 0,
-                         'calls_resolved': 0, 'calls_unresolved': 0}
+        self.counters = _Counters({'functions_analysed': set(), 'paths_enumerated': 0, 'abstract_cases': 0,
+                                   'calls_resolved': 0, 'calls_unresolved': 0})
         self.exhaustive = {}
         self.notes = []
         self.rule_errors = []      # (rule id, message) of rules that could not be evaluated
